@@ -194,6 +194,15 @@ func workloads(c *core.Ctx) []workload {
 		{Name: "single_count", Kind: "complete", Lines: L, Shared: "pool",
 			SQL:  func(int) string { return "SELECT count(*) AS n FROM a.json" },
 			Rows: func(n, k int) int { return 1 }},
+		// tail=true follows the file for ever (one-line batches, a pipe-writer goroutine fed by the
+		// tail library): finite only because LIMIT stops it; Close has to stop that goroutine
+		{Name: "tail_limit_single", Kind: "limit", Lines: L, Shared: "pool+tail-goroutine",
+			SQL:  func(int) string { return "SELECT id FROM a.json?tail=true LIMIT 100" },
+			Rows: func(n, k int) int { return 100 }},
+		{Name: "tail_join_limit", Kind: "limit", Lines: L, Shared: "pool+join+tail-goroutine",
+			SQL: func(int) string {
+				return "SELECT x.id, y.v FROM a.json?tail=true x JOIN b.json y ON x.id = y.id LIMIT 100"
+			}, Rows: func(n, k int) int { return 100 }},
 	}
 	return ws
 }
@@ -231,6 +240,8 @@ type driver struct {
 	wall      map[string][]int64
 	matrix    map[string][]string
 	raceTotal int
+
+	probeCalibrated bool
 }
 
 const hookDelayPoints = "json.worker.batch_parsed,json.reader.before_submit"
@@ -648,9 +659,16 @@ func Run(c *core.Ctx) core.FinishOpts {
 				_ = rng.Intn(3)
 				_ = rng.Intn(1000000)
 			}
-			// a late row: beyond the join's 10000-message buffer and beyond the first 100 rows
-			// the schema inference reads
+			// even repetitions: a late row, beyond the join's 10000-message buffer;
 			rc.K = w.Lines*5/8 + rng.Intn(w.Lines/4+1)
+			if r%2 == 1 {
+				// an early row (still beyond the 100 rows of schema inference): the other join
+				// side then has far more than the 10000-message buffer left to deliver when the
+				// join returns
+				rc.K = 150 + rng.Intn(500)
+			} else {
+				_ = rng.Intn(500)
+			}
 			rc.ChunkSd = rng.Int63n(1 << 30)
 			if w.Kind != "error" {
 				rc.K = 0
@@ -700,6 +718,11 @@ func Run(c *core.Ctx) core.FinishOpts {
 	})
 	<-inprocDone
 	<-probeDone
+	if only == "" && !d.probeCalibrated {
+		// the first probe ran next to everything else and had not reached its blocked state when
+		// it was stopped (loaded machine): once more, alone, with a longer wait
+		d.calibrationProbeWait(90 * time.Second)
+	}
 	hooks := map[string]int64{}
 	type wstat struct {
 		Runs, AsDesigned   int
@@ -792,7 +815,9 @@ func Run(c *core.Ctx) core.FinishOpts {
 // goroutine, the stdin reader. If any *other* goroutine of an idle process shows up as live
 // (say, a background ticker that sleeps), a real deadlock could never be classified as one; the
 // evidence records that as probe/uncalibrated.
-func (d *driver) calibrationProbe() {
+func (d *driver) calibrationProbe() { d.calibrationProbeWait(25 * time.Second) }
+
+func (d *driver) calibrationProbeWait(wait time.Duration) {
 	c := d.c
 	dir := d.data(20000, -1)
 	first := mkFile(1000, -1)
@@ -800,13 +825,13 @@ func (d *driver) calibrationProbe() {
 		Args:        []string{"SELECT x.id, y.v FROM stdin.json x JOIN b.json y ON x.id = y.id", "-o", "json"},
 		Env:         []string{raceEnv(filepath.Join(c.Scratch, "racelog", "probe"), 0), "GOTRACEBACK=all"},
 		Race:        true,
-		Timeout:     20 * time.Second,
+		Timeout:     wait,
 		Dir:         dir,
 		StdinChunks: [][]byte{first, []byte("\n")},
-		ChunkPause:  45 * time.Second,
+		ChunkPause:  wait + 20*time.Second,
 	}
 	res := d.exec(run)
-	note := map[string]interface{}{"sql": run.Args[0], "stdin": "1000 lines, then held open", "stopped_after_s": 20, "timed_out": res.TimedOut}
+	note := map[string]interface{}{"sql": run.Args[0], "stdin": "1000 lines, then held open", "stopped_after_s": int(wait.Seconds()), "timed_out": res.TimedOut}
 	if !res.TimedOut {
 		c.Count("probe/did-not-block", 1)
 		c.Note("calibration_probe", note)
@@ -830,12 +855,13 @@ func (d *driver) calibrationProbe() {
 	switch {
 	case v.Verdict == "inconclusive" && stdinReader >= 1 && len(other) == 0:
 		c.Count("probe/calibrated:only-the-stdin-reader-is-live", 1)
+		d.probeCalibrated = true
 	case v.Verdict == "deadlock":
 		// must never happen: the stdin reader is in a system call
 		c.Count("probe/uncalibrated:blocked-read-classified-as-deadlock", 1)
 		c.Inconclusive("probe:classifier-called-a-blocked-stdin-read-a-deadlock")
 	default:
-		c.Count("probe/uncalibrated:other-live-goroutines", 1)
+		c.Count("probe/not-yet-blocked-when-stopped:other-live-goroutines", 1)
 		note["other_live"] = other
 	}
 	c.Note("calibration_probe", note)
